@@ -20,8 +20,11 @@ import dns.rdatatype
 import dns.versioned
 import dns.zone
 
+import functools
+
 from bounded._c12_sched import (
     Abort,
+    LineHook,
     PrefixChooser,
     RandomChooser,
     Sched,
@@ -102,8 +105,33 @@ def _labels(threads):
     return out
 
 
+@functools.lru_cache(maxsize=None)
+def _rd(rdtype, text):
+    return dns.rdata.from_text(IN, rdtype, text)  # rdata objects are immutable
+
+
+@functools.lru_cache(maxsize=None)
+def _nm(text):
+    return dns.name.from_text(text, None)
+
+
 def _rds(rdtype, text):
-    return dns.rdataset.from_rdata(300, dns.rdata.from_text(IN, rdtype, text))
+    return dns.rdataset.from_rdata(300, _rd(rdtype, text))
+
+
+class _LineMode:
+    """Installs line-level pre-emption on the writer admission code for a block."""
+
+    def __init__(self):
+        self.hook = LineHook(_sched_ref)
+
+    def __enter__(self):
+        self.hook.install(_line_codes())
+        return self
+
+    def __exit__(self, *a):
+        self.hook.uninstall()
+        return False
 
 
 def _model_apply(state, label, kind, prev, n):
@@ -125,8 +153,8 @@ def _real_apply(txn, label, kind, prev, n):
     rds = txn.get(LOG, TXT)
     cur = rds[0].to_text().strip('"') if rds is not None and len(rds) else ""
     txn.replace(LOG, _rds(TXT, '"%s"' % (cur + label)))
-    txn.replace(dns.name.from_text("w" + label, None), _rds(A, "10.0.0.%d" % n))
-    txn.delete(dns.name.from_text("w" + prev, None))
+    txn.replace(_nm("w" + label), _rds(A, "10.0.0.%d" % n))
+    txn.delete(_nm("w" + prev))
 
 
 def _dump_items(items):
@@ -173,7 +201,7 @@ class Exec:
         self.sched = Sched(
             chooser,
             release_points=release_points,
-            line_codes=_line_codes() if line else None,
+            line_mode=line,
         )
         self.sched.on_acquire = self._on_acquire
         self.sched.on_decision = self._on_decision
@@ -186,9 +214,6 @@ class Exec:
         if t.state == "in_writer" and not t.arrived:
             t.arrived = True
             self.arrivals.append(t.user)
-        elif t.state == "in_reader" and not t.arrived:
-            t.arrived = True
-            self.log.append(("r_lock", t.user))
 
     def _on_decision(self, s):
         # readers never wait for a write transaction: a reader is runnable, or is
@@ -197,6 +222,8 @@ class Exec:
             if t.done:
                 continue
             kind, obj = t.pending
+            if kind == "wait" and t.state == "in_writer":
+                self.waited = True
             if t.nlocks > 0 and not s.enabled(t):
                 self.fail(
                     "C12.progress",
@@ -229,8 +256,8 @@ class Exec:
                         self.fail(
                             "C12.progress",
                             "no write transaction is open, yet the first waiting writer "
-                            "is parked on an event nobody has set (lost wake-up)",
-                            {"check": "lost wake-up"},
+                            "(in arrival order) is parked on an event nobody has set",
+                            {"check": "head waiter not woken while no write transaction is open"},
                         )
 
     # -------------------------------------------------------------- bodies
@@ -349,7 +376,7 @@ class Exec:
             self.zone = dns.versioned.Zone(ORIGIN)
             with self.zone.writer() as txn:
                 txn.replace(LOG, _rds(TXT, '"0"'))
-                txn.replace(dns.name.from_text("base", None), _rds(A, "10.0.0.0"))
+                txn.replace(_nm("base"), _rds(A, "10.0.0.0"))
             li = 0
             ridx = 0
             for spec in self.threads:
@@ -380,9 +407,7 @@ class Exec:
 
     def _evaluate(self):
         if self.outcome == "deadlock":
-            stuck = [
-                (t.idx, t.pending[0]) for t in self.sched.tasks if not t.done
-            ]
+            stuck = self.sched.stuck
             self.fail(
                 "C12.progress",
                 "deadlock: no thread can run, stuck=%s" % stuck,
@@ -409,24 +434,11 @@ class Exec:
                 )
         # reader snapshots
         self.reader_checked = 0
-        ended = set()
         started = set()
-        lo = {}
         hi = {}
         for ev in self.log:
             if ev[0] == "end_call":
                 started.add(ev[1])
-            elif ev[0] == "end_ret":
-                ended.add(ev[1])
-            elif ev[0] == "r_lock":
-                # commits certainly visible (they had returned when the reader got the lock): longest admitted prefix all ended
-                k = 0
-                for l in self.admitted:
-                    if l in ended:
-                        k += 1
-                    else:
-                        break
-                lo[ev[1][1]] = k
             elif ev[0] == "r_ret":
                 k = 0
                 for l in self.admitted:
@@ -451,7 +463,7 @@ class Exec:
                 for k, st in enumerate(states):
                     if s1 == st:
                         anyprefix = True
-                        if lo[ridx] <= k <= hi[ridx]:
+                        if k <= hi[ridx]:
                             ok = True
                 if not anyprefix:
                     self.fail(
@@ -463,10 +475,10 @@ class Exec:
                 elif not ok:
                     self.fail(
                         "C12.reader_atomic",
-                        "reader snapshot %s is a prefix outside the window [%d,%d] of "
-                        "transactions committed when it was opened"
-                        % (s1, lo[ridx], hi[ridx]),
-                        {"check": "snapshot is a stale or future prefix"},
+                        "reader snapshot %s contains a transaction whose commit had not "
+                        "even been called when reader() returned (only %d of %s had)"
+                        % (s1, hi[ridx], self.admitted),
+                        {"check": "snapshot contains an uncommitted transaction"},
                     )
 
 
@@ -482,8 +494,8 @@ def _run_one(R, threads, chooser, mode, line, release_points=False):
     key = (tuple(map(tuple, threads)), mode, tuple(sched))
     nw = len(ex.order)
     multi = nw >= 2
-    waited = len(ex.arrivals) >= 2
-    R.case("C12.one_writer", key, nontrivial=multi)
+    waited = ex.waited
+    R.case("C12.one_writer", key, nontrivial=waited)
     R.case("C12.fifo", key, nontrivial=waited)
     R.case("C12.progress", key, nontrivial=multi)
     R.case("C12.serial_result", key, nontrivial=ex.serial_checked and sum(
@@ -528,56 +540,92 @@ def _dfs(R, threads, mode, line=False, bound=None, cap=None):
 
 
 KINDS = "cCrex"
+Rd = ("R",)
+
+
+def W(k):
+    return ("W", k)
+
+
+def _summarize(cfg):
+    return "+".join(t[1] if t[0] == "W" else "R" for t in cfg)
+
+
+def _lock_block(R, summary, configs):
+    for threads in configs:
+        if R.deadline():
+            summary.append((_summarize(threads), "lock", 0, False))
+            continue
+        n, complete = _dfs(R, threads, "lock")
+        summary.append((_summarize(threads), "lock", n, complete))
 
 
 def run(R):
     quick = R.quick
     summary = []
 
-    def W(k):
-        return ("W", k)
-
-    Rd = ("R",)
-
-    exhaustive = []
-    for a in KINDS:
-        for b in KINDS:
-            exhaustive.append([W(a), W(b)])
-    exhaustive += [[W("c"), W("c"), Rd], [W("c"), W("r"), Rd], [W("r"), W("c"), Rd],
-                   [W("C"), W("e"), Rd]]
-    triples = ["ccc", "crc", "rcr", "cCe", "xcc", "rrc"]
+    small = [[W(a), W(b)] for a in KINDS for b in KINDS]
+    tk = "crx" if quick else KINDS
+    small += [[W(a), W(b), W(c)] for a in tk for b in tk for c in tk]
+    if quick:
+        small += [[W(a), W(b), W(c)] for a, b, c in ("cCe", "Ccr", "ecc", "rCc", "eer", "cec")]
+    small += [[W("c"), W("c"), Rd], [W("c"), W("r"), Rd], [W("r"), W("c"), Rd],
+              [W("C"), W("e"), Rd], [W("c"), Rd, Rd]]
+    small += [[W("cc"), W("c")], [W("rc"), W("c")], [W("cr"), W("r")], [W("cc"), W("cc")],
+              [W("cr"), W("rc")], [W("c"), W("c"), W("c"), W("c")]]
     if not quick:
-        triples = [a + b + c for a in KINDS for b in KINDS for c in KINDS]
-    for tr in triples:
-        exhaustive.append([W(tr[0]), W(tr[1]), W(tr[2])])
-    exhaustive += [[W("cc"), W("c")], [W("rc"), W("c")], [W("cr"), W("r")]]
-    if not quick:
-        exhaustive += [[W("c"), W("c"), W("c"), Rd], [W("c"), W("r"), W("c"), Rd],
-                       [W("r"), W("c"), W("C"), Rd],
-                       [W("cc"), W("cc")], [W("cr"), W("rc")],
-                       [W("c"), W("c"), Rd, Rd], [W("cc"), W("c"), Rd]]
-    for threads in exhaustive:
-        if R.deadline():
-            break
-        n, complete = _dfs(R, threads, "lock")
-        summary.append((str(threads), "lock", n, complete))
+        small += [[W("cc"), W("c"), Rd], [W("rc"), W("c"), Rd]]
+    _lock_block(R, summary, small)
 
+    with _LineMode():
+        _line_part(R, summary)
+
+    big = [[W("c"), W("r"), W("c"), Rd]]
+    if not quick:
+        big += [[W("c"), W("c"), W("c"), Rd], [W("r"), W("c"), W("C"), Rd],
+                [W("e"), W("c"), W("x"), Rd],
+                [W("c"), W("r"), W("c"), W("r")], [W("r"), W("c"), W("x"), W("c")],
+                [W("c"), W("C"), W("e"), W("c")], [W("ccc"), W("cc")], [W("crc"), W("rc")],
+                [W("c"), W("c"), Rd, Rd]]
+    _lock_block(R, summary, big)
+
+    # compact note: pairs and triples are summarised, the rest listed
+    pairs = [x for x in summary if x[1] == "lock" and x[0].count("+") == 1 and "R" not in x[0]
+             and len(x[0]) == 3]
+    trip = [x for x in summary if x[1] == "lock" and x[0].count("+") == 2 and "R" not in x[0]
+            and len(x[0]) == 5]
+    rest = [x for x in summary if x not in pairs and x not in trip]
+    R.note("exhaustive lock-level: %d writer pairs, %d schedules; %d writer triples, %d schedules"
+           % (len(pairs), sum(x[2] for x in pairs), len(trip), sum(x[2] for x in trip)))
+    R.note("schedules per configuration: " + "; ".join(
+        "%s/%s=%d%s" % (a, b_, n, "" if c else " (INCOMPLETE)") for a, b_, n, c in rest))
+    incomplete = [x for x in summary if not x[3]]
+    if incomplete:
+        R.note("budget reached before exhausting: %s" % [x[0] + "/" + x[1] for x in incomplete])
+
+
+def _line_part(R, summary):
+    quick = R.quick
     # line level, pre-emption bounded DFS
-    line_cfgs = [([W("c"), W("c")], 2), ([W("c"), W("r"), W("c")], 2)]
-    if not quick:
+    if quick:
+        line_cfgs = [([W("c"), W("c")], 2), ([W("c"), W("r"), W("c")], 1),
+                     ([W("c"), W("c"), Rd], 2)]
+    else:
         line_cfgs = [([W("c"), W("c")], 3), ([W("r"), W("c")], 3), ([W("c"), W("e")], 3),
-                     ([W("cc"), W("c")], 2),
-                     ([W("c"), W("c"), W("c")], 2), ([W("c"), W("r"), W("c")], 2),
-                     ([W("r"), W("c"), W("x")], 2), ([W("c"), W("c"), Rd], 2)]
+                     ([W("cc"), W("c")], 2), ([W("c"), W("c"), Rd], 2), ([W("r"), W("c"), Rd], 2),
+                     ([W("c"), W("c"), W("c"), W("c")], 1),
+                     ([W("c"), W("r"), W("c")], 2), ([W("c"), W("c"), W("c")], 2),
+                     ([W("r"), W("c"), W("x")], 2)]
     for threads, bound in line_cfgs:
+        mode = "line-pb%d" % bound
         if R.deadline():
-            break
-        n, complete = _dfs(R, threads, "line-pb%d" % bound, line=True, bound=bound,
-                           cap=2500 if quick else 60000)
-        summary.append((str(threads), "line-pb%d" % bound, n, complete))
+            summary.append((_summarize(threads), mode, 0, False))
+            continue
+        n, complete = _dfs(R, threads, mode, line=True, bound=bound)
+        summary.append((_summarize(threads), mode, n, complete))
 
     # line level, seeded random schedules with 4-6 threads
-    nrand = 250 if quick else 6000
+    nrand = 600 if quick else 15000
     done = 0
     for i in range(nrand):
         if R.deadline():
@@ -596,18 +644,18 @@ def run(R):
                                   "arrivals": ex.arrivals, "admitted": ex.admitted})
         done += 1
     summary.append(("random 4-6 threads", "line-rand", done, done == nrand))
-    incomplete = [s for s in summary if not s[3]]
-    R.note("schedules per configuration: " + "; ".join(
-        "%s/%s=%d%s" % (a, b, n, "" if c else " (INCOMPLETE)") for a, b, n, c in summary))
-    if incomplete:
-        R.note("budget reached before exhausting: %s" % [s[0] + "/" + s[1] for s in incomplete])
 
 
 def replay(data):
     threads = [tuple(t) for t in data["threads"]]
-    ex = Exec(threads, PrefixChooser(data["schedule"]), line=bool(data.get("line")),
+    line = bool(data.get("line"))
+    ex = Exec(threads, PrefixChooser(data["schedule"]), line=line,
               release_points=bool(data.get("release_points", False)))
-    ex.run()
+    if line:
+        with _LineMode():
+            ex.run()
+    else:
+        ex.run()
     want = data.get("clause")
     hits = [f for f in ex.found if want is None or f[0] == want]
     if hits:
